@@ -240,12 +240,13 @@ def gen_composites(args) -> list:
                 rec = _ZoneRecurrence(rnd.choice(pool), mk_off(), mk_yo(), rnd.choice([-(2**31), 0, 1, 1900, 1987, 2007]), rnd.choice([1999, 9999, 2**31 - 1]))
                 r = _rw(lambda w: rec._write(w), lambda rd: _ZoneRecurrence.read(rd), pool=p)
                 ev = {"op": "recurrence", "v": {"name": p.index(rec.name), "savings": rec.savings.milliseconds, "yo": _yo_fields(rec.year_offset),
-                                                "from": max(rec.from_year, -1), "to": rec.to_year}}
+                                                "from": -1 if rec.from_year == -(2**31) else rec.from_year, "to": rec.to_year}}   # -1: from the start of time
                 if "_back" in r:
                     b = r["_back"]
                     ev["back"] = {"name": p.index(b.name), "savings": b.savings.milliseconds, "yo": _yo_fields(b.year_offset),
-                                  "from": max(b.from_year, -1), "to": b.to_year}
-                    ev["eq"] = (b == rec) or rec.from_year <= 0
+                                  "from": -1 if b.from_year == -(2**31) else b.from_year, "to": b.to_year}
+                    # (year 0 is written like "from the start of time" and read back as that: the one start year that is not kept)
+                    ev["eq"] = (b == rec) or rec.from_year == 0
             else:
                 p = list(pool)
 
